@@ -63,20 +63,37 @@ func TestC20(t *testing.T) {
 			if withEpoch {
 				items = append([]string{"Epoch"}, items...)
 			}
-			// optional WHERE on Epoch (lower bound on a stored time)
+			// optional WHERE: 0-2 conditions from C19's grammar (Epoch or value column, every operator),
+			// so that LIMIT is exercised after range bounds, equalities and value predicates alike
 			var keep []int
 			where := ""
-			if rapid.Bool().Draw(t, "where") {
-				i := rapid.IntRange(0, base.Len()-1).Draw(t, "fromRow")
-				tn := rowTimeNs(base, i)
-				where = fmt.Sprintf(" WHERE Epoch >= %d", tn)
-				for j := 0; j < base.Len(); j++ {
-					if rowTimeNs(base, j) >= tn {
-						keep = append(keep, j)
+			var conds []sqlCond
+			for i, nc := 0, rapid.IntRange(0, 2).Draw(t, "nconds"); i < nc; i++ {
+				conds = append(conds, genCond(t, sc, base))
+			}
+			if len(conds) > 0 {
+				var texts []string
+				for _, c := range conds {
+					texts = append(texts, c.text)
+				}
+				where = " WHERE " + strings.Join(texts, " AND ")
+			}
+			for j := 0; j < base.Len(); j++ {
+				ok := true
+				for _, c := range conds {
+					var cv interface{}
+					if c.col != "Epoch" {
+						for ci, n := range base.Names {
+							if n == c.col {
+								cv = elemCol(base.Cols[ci], j)
+							}
+						}
+					}
+					if !c.eval(rowTimeNs(base, j), cv) {
+						ok = false
 					}
 				}
-			} else {
-				for j := 0; j < base.Len(); j++ {
+				if ok {
 					keep = append(keep, j)
 				}
 			}
@@ -101,6 +118,12 @@ func TestC20(t *testing.T) {
 			}
 			if gotLen != want.Len() {
 				t.Fatalf("%s\n -> %d rows, want %d (stored %d)", stmt, gotLen, want.Len(), base.Len())
+			}
+			if want.Len() == 0 {
+				// an empty result carries no values; which column names an empty relation shows
+				// (the scan's or the select list's) is not part of the property
+				rec.Case("", "kind:select", "empty-result")
+				continue
 			}
 			for _, ds := range sel {
 				g := colOf(got, outName[ds.Name])
